@@ -211,3 +211,58 @@ def perm(ctx, rep):
     if not n_sites:
         rep.proved("R-C31-perm", "devices and executors", f"no dispatch input is re-ordered through an index list ({n_fn} functions with index gathers looked at)",
                    nontrivial=False)
+
+
+def wire_map_order(ctx, rep):
+    """R-C31-wiremap: the label -> index map that puts a circuit on standard wires enumerates the gate-carrying wires in a
+    deterministic order.  Iterating a *set* of labels depends on the hash seed for string labels, i.e. differs between worker
+    processes and between runs: equally seeded devices then sample different bit positions."""
+    ix = ctx.index
+    rel = "pennylane/core/qscript.py"
+    rep.rule("R-C31-wiremap", "in QuantumScript._get_standard_wire_map the first group enumerated into the wire map (the wires that operations act on) is an "
+             "ordered collection (Wires / list), never a set: set iteration order of string labels depends on the interpreter's hash seed")
+    f = ix.func(rel, "QuantumScript._get_standard_wire_map")
+    rep.analysed(rel, f.qualname)
+    defs = {}
+    for st in walk_shallow(f.node):
+        if isinstance(st, ast.Assign) and len(st.targets) == 1 and isinstance(st.targets[0], ast.Name):
+            defs.setdefault(st.targets[0].id, []).append(st.value)
+
+    def is_set(e, depth=0):
+        if depth > 3:
+            return None
+        if isinstance(e, (ast.Set, ast.SetComp)):
+            return True
+        if isinstance(e, ast.Call) and isinstance(e.func, ast.Name) and e.func.id in ("set", "frozenset"):
+            return True
+        if isinstance(e, ast.BinOp) and isinstance(e.op, (ast.Sub, ast.BitOr, ast.BitAnd)):
+            return is_set(e.left, depth + 1)
+        if isinstance(e, ast.Name) and e.id in defs:
+            rs = [is_set(d, depth + 1) for d in defs[e.id]]
+            return True if any(r is True for r in rs) else (False if all(r is False for r in rs) else None)
+        if isinstance(e, ast.Call):
+            return False if norm(e.func).split(".")[-1] in ("all_wires", "Wires", "list", "tuple", "sorted") else None
+        return None
+    n = 0
+    for en in [c for c in ast.walk(f.node) if isinstance(c, ast.Call) and isinstance(c.func, ast.Name) and c.func.id == "enumerate" and c.args]:
+        x = c_ = en.args[0]
+        if isinstance(x, ast.Name) and x.id in defs and len(defs[x.id]) == 1:
+            x = defs[x.id][0]
+        first = x
+        while isinstance(first, ast.BinOp) and isinstance(first.op, ast.Add):
+            first = first.left
+        if isinstance(first, (ast.List, ast.Tuple)) and first.elts:
+            first = first.elts[0].value if isinstance(first.elts[0], ast.Starred) else first.elts[0]
+        n += 1
+        where = f"{rel}:{f.qualname} `{norm(en)[:60]}`"
+        r = is_set(first)
+        if r is True:
+            rep.refuted("R-C31-wiremap", rel, f.qualname, en,
+                        f"the wires that operations act on are enumerated from a set (`{norm(first)[:40]}`): for string wire labels the label -> index "
+                        "assignment depends on the hash seed of the interpreter, so worker processes (and two runs of the same seeded program) place "
+                        "the qubits differently and seeded samples differ", line=en.lineno)
+        elif r is False:
+            rep.proved("R-C31-wiremap", where, "operation wires are enumerated from an ordered collection")
+        else:
+            rep.unknown("R-C31-wiremap", where, "kind of the first enumerated group not determined")
+    rep.floor("enumerations building the standard wire map", n, 1)
